@@ -24,7 +24,8 @@ where
         );
     }
     // There is two additional bytes that are not covered by the header size
-    let header = reader.read_bytes((header_size + 2) as usize)?;
+    let header_len = usize::try_from(header_size as u64 + 2).map_err(|_| Error::UnexpectedEof)?;
+    let header = reader.read_bytes(header_len)?;
     let mut images = vec![];
 
     match blp_header.mipmap_locator {
